@@ -89,7 +89,7 @@ func (c *AuthorizeExplicitGrantHandler) HandleTokenEndpointRequest(ctx context.C
 	// credentials (or assigned other authentication requirements), the
 	// client MUST authenticate with the authorization server as described
 	// in Section 3.2.1.
-	request.SetSession(authorizeRequest.GetSession())
+	request.SetSession(authorizeRequest.GetSession().Clone())
 	request.SetID(authorizeRequest.GetID())
 
 	atLifespan := fosite.GetEffectiveLifespan(request.GetClient(), fosite.GrantTypeAuthorizationCode, fosite.AccessToken, c.Config.GetAccessTokenLifespan(ctx))
